@@ -130,7 +130,8 @@ def validate_element(case, cond, S, slots, classes, spec=None, chain=None, rel=1
         else:
             require(L == T, "slot %d: without eos every path has max_iters tokens" % k, L, T)
         exp = chain(cond, toks)
-        require(close(sc, exp, rel=rel, abs_=2e-5), "slot %d: reported log-probability != chained model log-probability" % k,
+        # (absolute part: about 2^-24 per float32 log-softmax term, however small the term - it matters for long paths only)
+        require(close(sc, exp, rel=rel, abs_=2e-5 + len(toks) * 2.4e-7), "slot %d: reported log-probability != chained model log-probability" % k,
                 sc, {"tokens": toks, "chain": exp})
         finite.append((tuple(toks), sc))
     require(len(finite) >= 1, "no slot with a finite score", scores, ">= 1 finite")
